@@ -71,6 +71,7 @@ def build(df, f, aux, vs):
         mapping = {labels[c]: (dims[f["map"][c] - 1] if f["map"][c] else None) for c in range(nv)}
         mapping = fldmod.scramble(mapping, sum(m["n"]) + nv + len(str(f["map"])))
     field = fldmod.labelled_field(df, mesh, nv, arr, labels, mapping, sum(m["n"]) + nv + sum(f["map"]) if f["hasmap"] else 1, valid=valid)
+    fldmod.lived(field, sum(m["n"]) + 2 * nv + len(labels or ()))
     afield = None
     if aux["kind"] != "none":
         am = {"lo": m["lo"], "n": aux["n"], "c": [m["c"][d] * m["n"][d] // aux["n"][d] for d in range(len(m["n"]))]}
